@@ -76,6 +76,8 @@ def generic(mod, pid, args, seed, t0):
     if not vs:
       print('native sweep finds no failing input on this tree')
     return 1 if vs else 0
+  if hasattr(mod, 'precheck'):
+    mod.precheck(repo)
   T = mod.build()
   tmo = args.timeout or (120 if args.tier == 'thorough' else 30)
   per_fn, canaries, wall, ex = run.verify_theory(T, repo, timeout_s=tmo)
